@@ -1134,7 +1134,22 @@ def prove(spec: FnSpec, timeout_s=10.0, budget_s=120.0):
             continue
         discharge(ob, timeout_s, use_cvc5=n_unknown < 2)
         n_unknown += ob.status == "unknown"
-    return ex.obligations, {"source_lines": len(src.splitlines()), "loops": ex.loop_ordinal, "paths": len(ends), "parallel": ex.parallel}
+    # vacuity canaries: `False` must not follow from the hypotheses under which an invariant is re-established or a
+    # postcondition is proved (contradictory requires / invariant / callee contract would make everything "provable")
+    vacuous, seen = [], set()
+    for ob in ex.obligations:
+        if not (ob.name.startswith("post.") or ob.name.endswith("invariant_preserved_by_an_iteration")):
+            continue
+        key = (ob.name.split(".")[0] if ob.name.startswith("loop") else "post", len(ob.hyps))
+        if key in seen:
+            continue
+        seen.add(key)
+        c = z3.Solver()
+        c.set("timeout", 1500)
+        c.add(*ob.hyps)
+        if c.check() == z3.unsat:
+            vacuous.append(ob.name)
+    return ex.obligations, {"source_lines": len(src.splitlines()), "loops": ex.loop_ordinal, "paths": len(ends), "parallel": ex.parallel, "vacuous": vacuous, "canaries": len(seen)}
 
 
 def discharge(ob: Obligation, timeout_s=10.0, use_cvc5=True):
